@@ -4,7 +4,7 @@ SourceFile::parse, CssData::load_module) in the input/, output/ and sass/ source
 the Result is treated at the call site:
   PQuestion  the call (possibly followed by .map/.map_err/.ok_or_else adaptors) is followed by `?`
   PTail      the call is the tail expression of its block (the Result is the block's value)
-  PBound v   `let v = <call>;` and `v?` appears later in the same function
+  PBound v   `let v = <call>;` and `v?` (or `v.map_err(..)?`) appears later in the same function
   POther     anything else (the error could be dropped)"""
 from rs2v import *
 
@@ -63,8 +63,15 @@ def classify(toks, call_open, fnblock):
             k -= 1
         if toks[k + 1].text == "let" and toks[k + 2].kind == "ident" and toks[k + 3].text == "=":
             v = toks[k + 2].text
-            if find_seq(toks, [v, "?"], j, fnblock[1]) >= 0:
-                return f"PBound {qs(v)}"
+            # `v?` or `v.map_err(..)?` later in the same function
+            for m in range(j, fnblock[1]):
+                if toks[m].text == v and toks[m].kind == "ident" and toks[m - 1].text != ".":
+                    e = m + 1
+                    while e + 2 < len(toks) and toks[e].text == "." and toks[e + 1].kind == "ident" \
+                            and toks[e + 1].text in ADAPTORS and toks[e + 2].text == "(":
+                        e = match_close(toks, e + 2) + 1
+                    if toks[e].text == "?":
+                        return f"PBound {qs(v)}"
     return "POther"
 
 
